@@ -1,6 +1,7 @@
 import MosdnsVerif.Model.C14
 import MosdnsVerif.Base.Facts
 import MosdnsVerif.Gen.Facts
+import MosdnsVerif.Refine.C14
 
 /-!
 # C14 — forward returns the first good answer among the queried upstreams
@@ -199,7 +200,27 @@ theorem forward_clamp (c : Int) : 1 ≤ clamp (Gen.Facts.c14MaxConcurrent.getD 0
   rw [this]
   exact clamp_range 3 (by omega) c
 
+/-! ## the same statements over the regenerated step of the collection loop (T1) -/
+
+/-- **C14 over the regenerated code**: with the body of `case res := <-resChan` taken from the source on this
+run, the first NOERROR / NXDOMAIN reply to arrive while the context is alive is what the call returns. -/
+theorem first_good_wins_gen (c : Nat) (evs : List Ev) (k : Nat) (rc f : Nat)
+    (hk : k < c) (hev : evs[k]? = some (.res (.reply rc f))) (hg : good rc = true)
+    (hbefore : noGoodBefore evs k) :
+    Refine.C14.collectGen c 0 evs = .reply rc f := by
+  rw [Refine.C14.collectGen_eq]
+  exact first_good_wins c evs k rc f hk hev hg hbefore
+
+/-- ... and the end of the caller's context ends the call at that event. -/
+theorem ctx_ends_call_gen (c : Nat) (evs : List Ev) (k : Nat) (hk : k < c) (hev : evs[k]? = some .ctxDone)
+    (hbefore : noGoodBefore evs k) : Refine.C14.collectGen c 0 evs = .errCtx := by
+  rw [Refine.C14.collectGen_eq]
+  exact ctx_ends_call c evs k hk hev hbefore
+
 /-! ## non-vacuity -/
+
+example : Refine.C14.collectGen 3 0 [.res (.reply 2 1), .res (.reply 3 2), .res (.reply 0 0)] = .reply 3 2 := by decide
+example : Refine.C14.collectGen 3 0 [.res .fail, .res (.reply 2 1), .res (.reply 5 2)] = .reply 5 2 := by decide
 
 example : exchange 3 4 7 2 [.res .fail, .res (.reply 2 3), .res (.reply 0 0)] = ([2, 3, 0], .reply 0 0) := by decide
 example : exchange 3 2 3 1 [.res (.reply 2 1), .res .fail, .res (.reply 5 1)] = ([1, 0, 1], .reply 5 1) := by decide
